@@ -22,7 +22,12 @@ TraceParseFlat ==
   /\ Log[l].ev = "parse_flat"
   /\ Log[l].tokens = Tokens(Parse(Log[l].genes))
 
-TraceNext == l <= Len(Log) /\ l' = l + 1 /\ (TraceParse \/ TraceParseFlat) /\ UNCHANGED smvars
+(* Display of the genome, tokenised by the harness ("i" / "{" / "}") *)
+TraceRender ==
+  /\ Log[l].ev = "render"
+  /\ Log[l].tokens = Render(Log[l].genes)
+
+TraceNext == l <= Len(Log) /\ l' = l + 1 /\ (TraceParse \/ TraceParseFlat \/ TraceRender) /\ UNCHANGED smvars
 
 TraceSpec == TraceInit /\ [][TraceNext]_<<smvars, l>>
 
